@@ -88,7 +88,7 @@ def ret_tuple_src(sig, first=None, capture=()):
   return "(" + ", ".join(names) + ("," if len(names) == 1 else "") + ")"
 
 
-CALL_STYLES = ("plain", "plain", "plain", "star", "dstar", "both", "empty")
+CALL_STYLES = ("plain", "plain", "plain", "star", "dstar", "both", "empty", "estar", "estar2")
 
 
 def args_src(call, style="plain"):
@@ -103,6 +103,10 @@ def args_src(call, style="plain"):
     kw = ["**{%s}" % ", ".join("'%s': k_%s" % (k, k) for k in kws)]
   if style == "empty":
     kw = kw + ["**{}"]
+  if style == "estar":     # an empty literal tuple unpacked behind the positionals: `f(p0, *())`, `f(*(), k=v)`
+    pos = pos + ["*()"]
+  if style == "estar2":    # the same through a module-level name (`E_ = ()` is defined by module_source)
+    pos = pos + ["*E_"]
   return ", ".join(pos + kw)
 
 
@@ -517,7 +521,7 @@ def module_source(items):
   maxpos = max([c[0] for it in items for c in it["calls"]] + [0])
   kwn = sorted({k for it in items for c in it["calls"] for k in c[1]})
   dfn = sorted({d for it in items for d in it["sig"]["defaults"]})
-  L = []
+  L = ["E_ = ()"]
   for i in range(maxpos):
     L.append("class P%d: pass" % i)
   for k in kwn:
@@ -865,7 +869,9 @@ def k2(res, rng, tier, drv, n_modules):
         if model != real:
           dis.append({"stage": "K2", "what": "model!=pytype", "kind": it["kind"], "sig": it["sig"],
                       "call": list(call), "lean_model": model, "real_pytype": real,
-                      "text": call_repr(it["kind"], it["sig"], call)})
+                      "style": (it.get("styles") or ["plain"] * (ci + 1))[ci],
+                      "text": call_repr(it["kind"], it["sig"], call) + "   [spelled f(%s)]" % args_src(
+                          call, (it.get("styles") or ["plain"] * (ci + 1))[ci])})
         elif len(samples) < 4 and (stats["calls"] % 97 == 1):
           samples.append({"case": call_repr(it["kind"], it["sig"], call), "model_and_pytype": model})
       fi += 1
@@ -908,11 +914,13 @@ def correspond(res, rng, tier):
 # ----------------------------------------------------------------------------
 # the property's own oracle on the real code: CPython vs pytype
 # ----------------------------------------------------------------------------
-def oracle_check(cases):
+def oracle_check(cases, styles=None):
   """cases: list of (kind, sig, call).  Runs real pytype (one module) and CPython (really calling).
+  styles: how each call is spelled in the analysed module (CPython binds every spelling alike).
   -> list of (case, cpython, pytype) that violate the property."""
   common.load_pytype()
-  items = [{"kind": k, "sig": s, "calls": [tuple(c)]} for k, s, c in cases]
+  styles = styles or ["plain"] * len(cases)
+  items = [{"kind": k, "sig": s, "calls": [tuple(c)], "styles": [st]} for (k, s, c), st in zip(cases, styles)]
   out, anomalies, _ = run_pytype_module(items)
   bad = []
   for ii, (k, s, c) in enumerate(cases):
@@ -927,13 +935,13 @@ def oracle_check(cases):
   return bad
 
 
-def shrink_case(kind, sig, call, budget_s=40.0):
+def shrink_case(kind, sig, call, budget_s=40.0, style="plain"):
   """greedy: drop parameters / defaults / arguments while CPython and pytype still disagree."""
   t0 = time.time()
 
   def fails(k, s, c):
     try:
-      return bool(oracle_check([(k, s, c)]))
+      return bool(oracle_check([(k, s, c)], [style]))
     except Exception:
       return False
   cur = (kind, sig, (call[0], list(call[1])))
@@ -986,20 +994,24 @@ def shrink_case(kind, sig, call, budget_s=40.0):
 def search(res, rng, disagreements, pfail):
   """S: CPython (really calling) vs the real pytype, around the disagreeing inputs."""
   t0 = time.time()
-  cases = []
+  cases, styles = [], []
   for d in disagreements:
     if d.get("sig") is not None and d.get("call") is not None:
       cases.append((d.get("kind", "func"), d["sig"], (d["call"][0], list(d["call"][1]))))
-  seeds = list(cases[:40])
-  # neighbourhood: same signatures with other calls, then fresh samples
-  for k, s, _ in seeds[:15]:
+      styles.append(d.get("style", "plain"))     # the spelling the disagreement was seen with
+  seeds = list(zip(cases[:40], styles[:40]))
+  # neighbourhood: same signatures with other calls (same spelling), then fresh samples in every spelling
+  for (k, s, _), st in seeds[:15]:
     for _ in range(6):
       cases.append((k, s, gen_call(rng, k, s, False)))
+      styles.append(st)
   for _ in range(40):
     it = gen_item(rng, False)
     cases += [(it["kind"], it["sig"], c) for c in it["calls"]]
+    styles += list(it["styles"])
   # the region of the known finding is represented by its listed witnesses (W), not searched
-  cases = [c for c in cases if not in_known_region(c[0], c[1])]
+  keep = [i for i, c in enumerate(cases) if not in_known_region(c[0], c[1])]
+  cases, styles = [cases[i] for i in keep], [styles[i] for i in keep]
   found = []
   if any(d.get("stage") == "K3-kw-register" for d in disagreements):
     # the keyword-call family modules run under CPython without a TypeError; a binding error reported by pytype on
@@ -1026,17 +1038,20 @@ def search(res, rng, disagreements, pfail):
     if time.time() - t0 > 120 or found:
       break
     try:
-      bad = oracle_check(cases[i:i + 50])
+      bad = oracle_check(cases[i:i + 50], styles[i:i + 50])
     except Exception as e:
       found.append({"exception": repr(e), "cases": [call_repr(*c) for c in cases[i:i + 50]][:5]})
       break
+    st_of = {repr(c): st for c, st in zip(cases[i:i + 50], styles[i:i + 50])}
     for (k, s, c), cp, real in bad[:2]:
-      k2_, s2, c2 = shrink_case(k, s, c)
-      bad2 = oracle_check([(k2_, s2, c2)])
+      st = st_of.get(repr((k, s, c)), "plain")
+      k2_, s2, c2 = shrink_case(k, s, c, style=st)
+      bad2 = oracle_check([(k2_, s2, c2)], [st])
       cp2, real2 = (bad2[0][1], bad2[0][2]) if bad2 else (cp, real)
-      found.append({"kind": k2_, "sig": s2, "call": [c2[0], list(c2[1])],
-                    "program": module_source([{"kind": k2_, "sig": s2, "calls": [tuple(c2)]}])[0],
-                    "cpython": cp2, "pytype": real2, "text": call_repr(k2_, s2, c2),
+      found.append({"kind": k2_, "sig": s2, "call": [c2[0], list(c2[1])], "style": st,
+                    "program": module_source([{"kind": k2_, "sig": s2, "calls": [tuple(c2)], "styles": [st]}])[0],
+                    "cpython": cp2, "pytype": real2,
+                    "text": call_repr(k2_, s2, c2) + "   [spelled f(%s)]" % args_src(c2, st),
                     "unshrunk": call_repr(k, s, c)})
   return found
 
@@ -1097,8 +1112,8 @@ def replay(path):
     print("replay file has no concrete input (kind=%s)" % d.get("kind"))
     return 2
   case = (inp.get("kind", "func"), inp["sig"], (inp["call"][0], list(inp["call"][1])))
-  bad = oracle_check([case])
-  print("replay %s: %s" % (call_repr(*case), "CPython %s, pytype %s -> VIOLATES" % (bad[0][1], bad[0][2])
+  bad = oracle_check([case], [inp.get("style", "plain")])
+  print("replay %s [f(%s)]: %s" % (call_repr(*case), args_src(case[2], inp.get("style", "plain")), "CPython %s, pytype %s -> VIOLATES" % (bad[0][1], bad[0][2])
                             if bad else "CPython and pytype agree"))
   return 1 if bad else 0
 
